@@ -25,6 +25,25 @@ def run(tier='quick', seed=0, jobs=1):
                 continue        # not a handled event in this configuration (judged by C14)
             # an equal job object, as the dispatcher would hold it while evaluating
             headers, payload, setup = H._webhook_request(case)
+            # the same event delivered again while the build-status cache still holds what the first delivery put
+            # there (e.g. SUCCESSFUL): it must be enqueued again
+            from bert_e.git_host import cache as _cache
+            cases += 1
+            snapshot = {k: v for k, v in _cache.BUILD_STATUS_CACHE.items()}
+            real_reset = cx.reset
+
+            def soft_reset(h, real_reset=real_reset, snapshot=snapshot):
+                real_reset(h)
+                _cache.BUILD_STATUS_CACHE.update(snapshot)     # what the first delivery cached stays cached
+            cx.reset = soft_reset
+            try:
+                again = H.execute(case)
+            finally:
+                cx.reset = real_reset
+                _cache.BUILD_STATUS_CACHE.clear()
+            if again['status'] // 100 == 2 and again['n_jobs'] != 1:
+                failures.append({'clause': 'accepted_event_enqueued', 'signature': 'accepted_but_not_enqueued:%s:%s' % (route, 'status_already_cached'),
+                                 'case': dict(case, dispatcher='status_already_cached'), 'detail': {'status': again['status'], 'n_jobs': again['n_jobs']}})
             for state in ('idle', 'running_equal', 'running_other'):
                 cases += 1
                 hst.berte.status.pop('current job', None)
